@@ -3,8 +3,8 @@
      Interface::poll            ingress loop, then poll_egress until it reports no change
      Interface::socket_ingress  one received packet -> at most one reply through dispatch_ip
      Interface::poll_egress     ipv4_egress (one pending fragment) BEFORE socket_egress
-     Interface::socket_egress   sockets in handle order, one packet each; a packet that needs
-                                fragmentation stays queued while the fragmenter is not finished
+     Interface::socket_egress   sockets in handle order, one packet each; while the fragmenter is
+                                not finished every socket packet stays queued
                                 (EgressError::FragmenterBusy); device exhaustion breaks the loop
      InterfaceInner::next_ipv4_frag_ident   one ident per dispatch_ip call, wrapping u16
    (src/iface/interface/mod.rs, ipv4.rs).
@@ -93,8 +93,10 @@ Fixpoint eg_socket_egress (ip_mtu : Z) (fr : fragmenter) (hwst id : Z) (b : budg
           let '(fr2, hw2, id2, b2, rest2, out2, ch) := eg_socket_egress ip_mtu fr hwst id b rest in
           (fr2, hw2, id2, b2, q :: rest2, out2, ch)
       | d :: q' =>
-          if eg_needs_frag ip_mtu (snd d) && negb (fr_finished fr) then
-            (* FragmenterBusy: the packet stays in the socket, next socket *)
+          if negb (fr_finished fr) then
+            (* FragmenterBusy: while fragments are unsent EVERY socket packet stays in its socket
+               (one that needs fragmentation would be dropped, one that does not would overtake
+               the remaining fragments on the wire); next socket *)
             let '(fr2, hw2, id2, b2, rest2, out2, ch) := eg_socket_egress ip_mtu fr hwst id b rest in
             (fr2, hw2, id2, b2, q :: rest2, out2, ch)
           else if negb (bud_has b) then
